@@ -342,15 +342,16 @@ func failingDestinationLeaves(viol func(violation)) {
 			setFormat(l, format)
 			a := &quitterW{owner: l, down: true, how: list}
 			b, other := &recorder{}, &recorder{}
+			c3 := &recorder{} // a third member of the list, after b
 			lvl := slog.InfoLevel
-			cfg := "SetWriter(a).AddWriter(b); SetErrorWriter(e)"
+			cfg := "SetWriter(a).AddWriter(b).AddWriter(c); SetErrorWriter(e)"
 			if list == 0 {
-				l.SetWriter(a).AddWriter(b)
+				l.SetWriter(a).AddWriter(b).AddWriter(c3)
 				l.SetErrorWriter(other)
 			} else {
 				lvl = slog.ErrorLevel
-				cfg = "SetErrorWriter(a).AddErrorWriter(b); SetWriter(n)"
-				l.SetErrorWriter(a).AddErrorWriter(b)
+				cfg = "SetErrorWriter(a).AddErrorWriter(b).AddErrorWriter(c); SetWriter(n)"
+				l.SetErrorWriter(a).AddErrorWriter(b).AddErrorWriter(c3)
 				l.SetWriter(other)
 			}
 			in := map[string]any{"configuration": cfg, "a": "fails and calls Remove…Writer(a) on its logger from inside Write", "format": format, "severity": lvl.String()}
@@ -365,6 +366,9 @@ func failingDestinationLeaves(viol func(violation)) {
 			logIt("first-quit.")
 			if msg := wholeOnce(b.take(), "first-quit."); msg != "" {
 				viol(violation{What: "the destination after a failing one that left the list during the Write did not receive the complete record once: " + msg, Input: in})
+			}
+			if msg := wholeOnce(c3.take(), "first-quit."); msg != "" {
+				viol(violation{What: "the last destination of a list whose first member failed and left during the Write did not receive the complete record once: " + msg, Input: in})
 			}
 			diag := 0
 			warnDest := other
